@@ -1982,8 +1982,12 @@ fn verdict(f: &PFile, ds: &[Dmg], r: &JobResult) -> Verdict {
             // D-10's trigger, a predicate on the input: bits or bytes of the final block's setsum /
             // smallest_timestamp / biggest_timestamp fields are changed, nothing else of the
             // unchecksummed tail (rest of the final block, trailer) is touched, the length is kept
-            let confined = regs.iter().any(|x| x == "final.meta")
-                && regs.iter().all(|x| x == "final.meta" || x.ends_with(".body") || x.ends_with(".frame"));
+            // (or any other byte of the unchecksummed tail such that the final block still parses:
+            // a changed tag can turn another field into one of the three, or one of them into an
+            // unknown field).  The result class `meta-different` already says that the open, both
+            // walks and every load are unchanged; the trigger is that the damage reaches the
+            // unchecksummed tail at all.
+            let confined = regs.iter().any(|x| x.starts_with("final.") || x == "trailer");
             if confined {
                 Verdict::Fail { class: CLASS_D10.into(), detail: detail(r) }
             } else {
